@@ -321,6 +321,9 @@ impl Run {
         }
         self.close_part_samples(part);
         self.stats.parts.push(json!({"part": part, "kind": "random", "cases": n, "max_len": max_len, "wall_s": t0.elapsed().as_secs_f64()}));
+        if std::env::var("CGV_PROGRESS").is_ok() {
+            eprintln!("  [{}] part {part}: {n} cases in {:.1}s", self.prop, t0.elapsed().as_secs_f64());
+        }
     }
 
     /// Enumerated part (exhaustive over `items`, independent of the seed).
@@ -378,6 +381,9 @@ impl Run {
         }
         self.close_part_samples(part);
         self.stats.parts.push(json!({"part": part, "kind": if exhaustive {"exhaustive"} else {"enumerated"}, "cases": n, "wall_s": t0.elapsed().as_secs_f64()}));
+        if std::env::var("CGV_PROGRESS").is_ok() {
+            eprintln!("  [{}] part {part}: {n} cases in {:.1}s", self.prop, t0.elapsed().as_secs_f64());
+        }
     }
 
     /// Coverage-guided part: a libFuzzer campaign (cargo-fuzz target built from harness/cgv/fuzz) that decodes
